@@ -213,6 +213,20 @@ def ctor_rule(ctx, rule, ctor, adt):
 
 
 def point_text(ctx, rule, fv, who, template, nargs):
+    # read the row off its string value, however it is assembled (format! + join, or a String built in a loop)
+    rows_t = find_rows(fv, None, ctx)
+    if len(rows_t) == 1:
+        _n, j, d = rows_t[0]
+        clos = [s_ for s_ in subterms(j[2]) if s_[0] == "closure"]
+        body = clos[0][1] if len(clos) == 1 else None
+        v = ("cparam", 0)
+        want = (("proj", 0, v), ("proj", 1, v)) if nargs == 2 else \
+            (("proj", 0, ("proj", 0, v)), ("proj", 1, ("proj", 0, v)), ("proj", 1, v))
+        okp = body is not None and body[0] == "format" and fmt_template(body) == template and body[2] == want
+        if okp and d == L(" "):
+            ctx.ok(rule, "%s:point_text" % who, "point text %s of the components in order" % template, line_of(_n))
+            ctx.ok(rule, "%s:row_text" % who, "row = points joined by a space + newline", line_of(_n))
+            return
     fm = [(n, ft) for n, ft in formats_in(fv) if fmt_template(ft).startswith("(")]
     ok = len(fm) == 1 and fmt_template(fm[0][1]) == template
     if ok:
